@@ -12,7 +12,9 @@ logging.disable(logging.WARNING)
 warnings.filterwarnings('ignore')
 
 TRUSTED = ['torch.linalg.cross / np.cross / mm / bmm are the vector and matrix products',
-           'batched calls are compared pair by pair with the single-pair model (batching is not modelled)']
+           'batched calls are compared pair by pair with the single-pair model (batching is not modelled)',
+           'per-pair formulas of both APIs are regenerated from the source (translate/geomcore.py, geometry.py -> Generated/GeometryGen.lean; layout operations '
+           'such as [:, 0], unsqueeze, repeat are treated as broadcasting only) and proved equal to the model (Lemmas/GenGeometry.lean)']
 ASSUMPTIONS = ['torch geometry is float32: tolerance 5e-4 x coordinate scale; inside/outside compared away from edges (margin 1e-3)']
 
 
